@@ -298,7 +298,7 @@ namespace detail
 	{
 		GLM_STATIC_ASSERT(std::numeric_limits<T>::is_integer, "'bitfieldExtract' only accept integer inputs");
 
-		vec<L, T, Q> const Result((Value >> static_cast<T>(Offset)) & static_cast<T>(detail::mask(Bits)));
+		vec<L, T, Q> const Result((Value >> static_cast<T>(Offset)) & static_cast<T>(detail::mask(static_cast<T>(Bits))));
 		return detail::compute_bitfieldExtract_signed<L, T, Q, std::numeric_limits<T>::is_signed>::call(Result, Bits);
 	}
 
